@@ -31,6 +31,7 @@ from mashumaro.core.const import Sentinel
 from mashumaro.core.helpers import ConfigValue
 from mashumaro.core.meta.code.lines import CodeLines
 from mashumaro.core.meta.helpers import (
+    admits_none,
     evaluate_forward_ref,
     get_args,
     get_class_that_defines_field,
@@ -1221,11 +1222,7 @@ class CodeBuilder:
             or is_type_var_any(real_type)
             or is_optional(ftype, self.get_field_resolved_type_params(fname))
             or self.get_field_default(fname) is None
-            or (is_union(real_type) and NoneType in get_args(real_type))
-            or (
-                is_literal(real_type)
-                and None in get_literal_values(real_type)
-            )
+            or admits_none(real_type)
         )
         value = "value" if could_be_none or force_value else f"self.{fname}"
         packer = PackerRegistry.get(
